@@ -104,6 +104,11 @@ def pdict(items):
     return ",".join("%s:%s" % (enc(k), pv(v)) for k, v in items) or "-"
 
 
+def senc(k):
+    """hex form of a string; anything else (only possible when the implementation misbehaves) is marked"""
+    return enc(k) if isinstance(k, str) else "?%s:%r" % (type(k).__name__, k)
+
+
 def cv(v):
     """canonical JSON-able form of a value (strings hex-encoded like the driver does)"""
     if v is None or isinstance(v, (bool, int)):
@@ -113,16 +118,21 @@ def cv(v):
     if isinstance(v, (list, tuple)):
         return [cv(x) for x in v]
     if isinstance(v, dict):
-        return {("?" if not isinstance(k, str) else enc(k)): cv(x) for k, x in v.items()}
+        return {senc(k): cv(x) for k, x in v.items()}
     return "?" + type(v).__name__
 
 
 def cdict(d):
-    return {enc(k): cv(v) for k, v in d.items()}
+    if not isinstance(d, dict):
+        return "?" + type(d).__name__
+    return {senc(k): cv(v) for k, v in d.items()}
 
 
 def J(x):
-    return json.dumps(x, sort_keys=True)
+    try:
+        return json.dumps(x, sort_keys=True, default=repr)
+    except TypeError:
+        return repr(x)
 
 
 def cls_lines():
@@ -510,10 +520,10 @@ class RuleSet(object):
         idks = [k for k in e if k.endswith("_id") and k != "system_id"]
         idk = idks[0] if len(idks) == 1 else None
         return {"src": self.by_name.get(e.get("component"), -1),
-                "idn": enc(idk) if idk else "?", "idv": enc(e[idk]) if idk else "?",
+                "idn": senc(idk) if idk else "?", "idv": senc(e[idk]) if idk else "?",
                 "component": cv(e.get("component")), "type": cv(e.get("type")), "key": cv(e.get("key")),
                 "details": cdict(e.get("details", {})), "tags": sorted(cv(t) for t in e.get("tags", [])),
-                "links": {enc(k): [enc(u) for u in us] for k, us in (e.get("links") or {}).items()}}
+                "links": {senc(k): [senc(u) for u in us] for k, us in (e.get("links") or {}).items()}}
 
     def canon_state(self, ev, b):
         inv = {id(b.instances[c]): self.ids[c] for c in b.instances if c in self.ids}
@@ -522,7 +532,7 @@ class RuleSet(object):
             i = self.ids.get(c)
             if i in self.rule_ids:
                 excs[str(i)] = [exc_kind(x) for x in lst]
-        return {"results": {enc(t): [self.canon_entry(e) for e in es] for t, es in ev.results.items() if es},
+        return {"results": {senc(t): [self.canon_entry(e) for e in es] for t, es in ev.results.items() if es},
                 "skips": [{"src": inv.get(id(s), -1), "fields": cdict(s)} for s in ev.rule_skips],
                 "metadata": cdict(ev.metadata), "mdkeys": cdict(ev.metadata_keys), "excs": excs,
                 "stored": sorted(self.ids[c] for c in b.instances if self.ids.get(c) in self.rule_ids)}
@@ -560,15 +570,15 @@ def canon_report(rs, resp):
             t = {"entries": [rs.canon_entry(x) for x in v]}
         else:
             t = {"val": cv(v)}
-        out.append([cv(h), t])
-    return sorted(out, key=lambda p: p[0])
+        out.append([senc(h), t])
+    return sorted(out, key=lambda p: str(p[0]))
 
 
 def canon_model_report(m):
     for h, t in m:
         for e in t.get("entries", []):
             e["tags"] = sorted(e["tags"])
-    return sorted(m, key=lambda p: p[0])
+    return sorted(m, key=lambda p: str(p[0]))
 
 
 # --------------------------------------------------------------------------- ORACLE: accounting
@@ -721,9 +731,42 @@ def oracle_ruleset(rs, results, skips, exc_ids, metadata, mdkeys, b, limit, orde
     return out
 
 
-def oracle_formatter(rs, unfiltered, shown, missing, show):
-    """unfiltered: SingleEvaluator.get_response() of the same rule set; shown: what the formatter printed"""
+HEADING_TYPE = {"reports": "rule", "fingerprints": "fingerprint"}
+RESERVED_HEADINGS = ("system", "reports", "fingerprints", "skips", "analysis_metadata")
+
+
+def results_from_response(resp):
+    """the typed entries as get_response() presents them: {type: [entry]} by heading"""
+    res = {}
+    for h, v in resp.items():
+        if h in ("system", "skips", "analysis_metadata"):
+            continue
+        if isinstance(v, list) and v and all(isinstance(x, dict) and "component" in x and "details" in x for x in v):
+            res[HEADING_TYPE.get(h, h)] = v
+    return res
+
+
+def spec_show(f):
+    """the types the user asked for, from the command-line options alone: -S wins; -F alone means fail only
+    (documented: dropped when -m is given); otherwise everything but "none" """
+    if f["show"]:
+        return ["rule" if s == "fail" else s for s in f["show"]]
+    if f["fail_only"] and not f["missing"]:
+        return ["rule"]
+    return []
+
+
+def plain_entry(x):
+    return {k: (dict(v) if isinstance(v, dict) else v) for k, v in x.items() if k not in ("rendered_content", "system_id")}
+
+
+def oracle_formatter(rs, unfiltered, shown, f, same_order=True):
+    """unfiltered: SingleEvaluator.get_response() of the same rule set; shown: what the formatter printed;
+    f: the options; same_order: both evaluations ran the rules in the same order (otherwise lists are compared
+    as multisets and merged metadata, which depends on the order, is not compared)"""
     out = []
+    norm = (lambda xs: xs) if same_order else (lambda xs: sorted(xs, key=J))
+    missing, show = f["missing"], spec_show(f)
     counts = {"rule": unfiltered.get("reports"), "fingerprint": unfiltered.get("fingerprints")}
     for t in ("info", "pass", "none"):
         v = unfiltered.get(t)
@@ -734,6 +777,8 @@ def oracle_formatter(rs, unfiltered, shown, missing, show):
             present = "metadata" in shown.get("system", {})
             if asked and not present:
                 out.append("metadata asked for (show=%r) but hidden" % (show,))
+            elif asked and same_order and dict(shown["system"]["metadata"]) != dict(unfiltered["system"]["metadata"]):
+                out.append("metadata shown as %r, evaluator has %r" % (shown["system"]["metadata"], unfiltered["system"]["metadata"]))
             if not asked and present:
                 out.append("metadata filtered (show=%r) but shown" % (show,))
             continue
@@ -741,10 +786,12 @@ def oracle_formatter(rs, unfiltered, shown, missing, show):
             out.append("type %r filtered (show=%r) but heading %r shown" % (t, show, heading))
         if asked and counts[t] is not None:
             got = shown.get(heading)
-            if not isinstance(got, list) or [x.get("component") for x in got] != [x.get("component") for x in counts[t]]:
-                out.append("type %r asked for (show=%r) but heading %r is %r" % (t, show, heading, got))
+            if not isinstance(got, list) or norm([plain_entry(x) for x in got]) != norm([plain_entry(x) for x in counts[t]]):
+                out.append("type %r asked for (show=%r) but heading %r is %r, evaluator has %r" % (t, show, heading, got, counts[t]))
     if missing and "skips" not in shown:
         out.append("-m given but skips hidden")
+    elif missing and norm([dict(x) for x in shown["skips"]]) != norm([dict(x) for x in unfiltered["skips"]]):
+        out.append("-m: skips shown as %r, evaluator has %r" % (shown["skips"], unfiltered["skips"]))
     if not missing and "skips" in shown:
         out.append("no -m but skips shown")
     return out
@@ -760,12 +807,12 @@ def gen_case(rng, quick):
     nb = rng.randint(1, 4)
     bases = []
     for i in range(nb):
-        bases.append({"id": i, "how": rng.choice(["seed", "seed", "run", "raise", "skipraise"])})
+        bases.append({"id": i, "how": rng.choice(["seed", "seed", "seed", "run", "run", "raise", "skipraise"])})
     static = [b["id"] for b in bases if b["how"] in ("seed", "raise", "skipraise")]
     nr = rng.randint(1, 10 if quick else 24)
     rules = []
     # a limit shared by the case: small, so that payloads sit around it
-    limit = rng.choice([65535, 65535, 90, 120, 160, 200, 60, 300])
+    limit = rng.choice([65535, 65535, 65535, 65535, 420, 330, 260, 200, 150, 90])
     for j in range(nr):
         rid = nb + j
         lower = list(range(rid))
@@ -850,6 +897,7 @@ def evaluate(rs, chk=None):
     kinds = ["decl"] * len(lines)
     fails = []
     unfiltered = None
+    order0 = None
     with Limit(limit):
         for E in (SingleEvaluator, InsightsEvaluator):
             b = rs.broker()
@@ -857,14 +905,20 @@ def evaluate(rs, chk=None):
             resp = ev.process(rs.graph)
             if E is SingleEvaluator:
                 unfiltered = resp
+                order0 = list(b.vorder)
             st = rs.canon_state(ev, b)
             lines.append(rs.run_line(b.vorder))
             impl.append(st)
             kinds.append("state:" + E.__name__)
             exc_ids = set(int(i) for i in st["excs"])
-            for desc, finding in oracle_ruleset(rs, dict(ev.results), [dict(s) for s in ev.rule_skips], exc_ids,
-                                                dict(ev.metadata), dict(ev.metadata_keys), b, limit, b.vorder):
-                fails.append((E.__name__ + ": " + desc, finding))
+            # the oracle looks at what get_response() hands out (and broker.exceptions), not at the evaluator's fields
+            for desc, finding in oracle_ruleset(rs, results_from_response(resp), [dict(s) for s in resp.get("skips", [])],
+                                                exc_ids, dict(resp.get("system", {}).get("metadata", {})),
+                                                dict(ev.metadata_keys), b, limit, b.vorder):
+                fails.append((E.__name__ + ".get_response: " + desc, finding))
+            for k, v in ev.metadata_keys.items():
+                if k not in RESERVED_HEADINGS and k not in ev.results and resp.get(k) != v:
+                    fails.append(("%s.get_response: metadata key %r is %r in the response, expected %r" % (E.__name__, k, resp.get(k), v), None))
             # get_response: headings
             lines.append("resp\t1\t%s" % ",".join(enc(s) for s in ["rule", "info", "pass", "none", "metadata", "fingerprint"]))
             impl.append(canon_report(rs, resp))
@@ -873,21 +927,31 @@ def evaluate(rs, chk=None):
             adapter = parse_args(f["kind"], f)
             b = rs.broker()
             buf = io.StringIO()
+            raised = None
             if f["kind"] == "json":
                 # the whole public path: adapter built from the options, preprocess / run / postprocess
                 adapter.preprocess(b)
                 adapter.formatter.stream = buf
                 dr.run(rs.graph, broker=b)
-                adapter.postprocess(b)
                 fmt = adapter.formatter
-                shown = json.loads(buf.getvalue())
+                try:
+                    adapter.postprocess(b)
+                    shown = json.loads(buf.getvalue())
+                except Exception as e:
+                    raised = e
             else:
                 # YamlFormatterAdapter.preprocess mis-binds its arguments (known finding yaml-adapter-arguments,
                 # witnessed separately): the formatter is built the way the repo's own test builds it
                 fmt = YamlFormat(b, missing=adapter.missing, show_rules=adapter.show_rules, stream=buf)
-                with fmt:
-                    dr.run(rs.graph, broker=b)
-                shown = yaml.unsafe_load(buf.getvalue())
+                try:
+                    with fmt:
+                        dr.run(rs.graph, broker=b)
+                    shown = yaml.unsafe_load(buf.getvalue())
+                except Exception as e:
+                    raised = e
+            if raised is not None:
+                shown = {"!formatter raised": type(raised).__name__}
+                fails.append(("%s formatter raised %s: %s" % (f["kind"], type(raised).__name__, raised), None))
             st = rs.canon_state(fmt, b)
             lines.append(rs.run_line(b.vorder))
             impl.append(st)
@@ -900,8 +964,15 @@ def evaluate(rs, chk=None):
             kinds.append("report:" + f["kind"])
             exc_ids = set(int(i) for i in st["excs"])
             # accounting on what the formatter PRINTED (for the types that were not filtered out)
-            for desc in oracle_formatter(rs, unfiltered, shown, adapter.missing, adapter.show_rules):
-                fails.append(("%s formatter (missing=%s show=%r): %s" % (f["kind"], adapter.missing, adapter.show_rules, desc), None))
+            if raised is None:
+                for desc in oracle_formatter(rs, unfiltered, shown, f, same_order=(b.vorder == order0)):
+                    fails.append(("%s formatter (options %s%s%s): %s" % (
+                        f["kind"], "-m " if f["missing"] else "", "-F " if f["fail_only"] else "",
+                        "-S " + " ".join(f["show"]) if f["show"] else "", desc), None))
+            # the formatter's own bookkeeping (JsonFormat has its own handle_result)
+            for desc, finding in oracle_ruleset(rs, dict(fmt.results), [dict(x) for x in fmt.rule_skips], exc_ids,
+                                                dict(fmt.metadata), dict(fmt.metadata_keys), b, limit, b.vorder):
+                fails.append((type(fmt).__name__ + ": " + desc, finding))
     return lines, impl, kinds, fails
 
 
@@ -983,8 +1054,8 @@ def run(chk):
     rng = chk.rng
     quick = chk.tier == "quick"
     n_repr = 1500 if quick else 40000
-    n_mk = 4000 if quick else 120000
-    n_sets = 450 if quick else 9000
+    n_mk = 6000 if quick else 150000
+    n_sets = 800 if quick else 12000
     chk.rule = ("rule sets: 1-4 base components (seeded / run / raising / skipping) and 1-10 (thorough: 24) fresh @rule functions in four fake "
                 "modules, two of which share their simple name, with required / at-least-one / optional dependencies on bases and on "
                 "earlier rules, IGNORE entries, 10% disabled, shared keys K1/K2, every return kind (the five keyed make_* classes, "
@@ -1103,6 +1174,9 @@ def run(chk):
                     lines.append("adapter\t%d\t%d\t%s" % (m, f, ",".join(enc(s) for s in show) or "-"))
                     impl.append(J([enc(s) for s in ad.show_rules]) + "|%d" % bool(ad.missing))
                     chk.case(("adapter", kind, m, f, tuple(show)), True)
+                    if list(ad.show_rules) != spec_show(cases[-1]) or bool(ad.missing) != m:
+                        chk.failure("options %r select %r / missing=%r, expected %r / %r" % (
+                            cases[-1], ad.show_rules, ad.missing, spec_show(cases[-1]), m), cases[-1])
     model = run_driver("C12", lines)
     chk.compare("adapter-options", cases, impl,
                 [J(json.loads(x)) + "|%d" % c["missing"] if x != "bad-op" else x for x, c in zip(model, cases)])
@@ -1143,7 +1217,6 @@ def run(chk):
                     s[2] = s[2] or {"case": case, "answer": d[2]}
                 continue
             stream = {"state": "ruleset-state", "report": "formatter-output", "adapter": "ruleset-adapter"}[name]
-            n_cmp.setdefault("driver-declarations", [0, 0, None])[0] += 0
             s = n_cmp.setdefault(stream, [0, 0, None])
             s[0] += 1
             if d is not None:
@@ -1155,7 +1228,7 @@ def run(chk):
             if k == "state:SingleEvaluator":
                 tags = final_tags(a)
         for t in tags:
-            chk.count("outcome:" + (dec(t[6:]) if t.startswith("entry:") else t) if t.startswith("entry:") else "outcome:" + t)
+            chk.count("outcome:" + ("entry:" + dec(t[6:]) if t.startswith("entry:") else t))
         vec = tuple(tags)
         chk.case(("set", J(case)), vec not in seen_vec and len(set(t.split(":")[0] for t in tags)) >= 2)
         seen_vec.add(vec)
@@ -1170,7 +1243,41 @@ def run(chk):
 
 # --------------------------------------------------------------------------- replay
 
+def replay_ruleset(case):
+    """(oracle violated, model differs)"""
+    rs = RuleSet(case)
+    lines, impl, kinds, fails = evaluate(rs)
+    bad = differs = 0
+    for desc, finding in fails:
+        print("oracle:", desc[:1200], "[known finding %s]" % finding if finding else "")
+        if finding is None:
+            bad = 1
+    model = run_driver("C12", cls_lines() + lines)[len(cls_lines()):]
+    for d in compare_answers(rs, kinds, impl, model):
+        if d is not None:
+            differs = 1
+            print("model differs on %s:\n  impl  %s\n  model %s" % (d[0], J(d[1])[:1200], J(d[2])[:1200] if not isinstance(d[2], str) else d[2][:1200]))
+    return bad, differs
+
+
 def replay(data):
+    if data.get("kind") == "broken-tie":
+        # no failing input was found: show what no longer checks and re-run the recorded disagreeing cases
+        rc = 0
+        for b in data.get("broken", []):
+            print("no longer checks:", b.get("what"), "-", str(b.get("detail"))[:300])
+            c = b.get("case") or {}
+            inner = c.get("case") if isinstance(c, dict) else None
+            if isinstance(inner, dict) and "rules" in inner:
+                rc |= replay_ruleset(inner)[1]
+            elif isinstance(inner, dict) and inner.get("kind") in ("mk", "adapter"):
+                replay({"case": inner})
+                rc = 1
+            else:
+                print("  recorded:", json.dumps(c, default=str)[:1500])
+                rc = 1
+        print("model and implementation still disagree" if rc else "model and implementation agree again")
+        return rc
     c = data["case"]
     print("replaying", json.dumps(c, ensure_ascii=False)[:4000])
     kind = c.get("kind")
@@ -1191,17 +1298,11 @@ def replay(data):
         except (TypeError, ValidationException):
             bad = False
     elif kind == "ruleset":
-        rs = RuleSet(c["case"])
-        lines, impl, kinds, fails = evaluate(rs)
-        known = set()
-        for desc, finding in fails:
-            print("oracle:", desc, "[known finding %s]" % finding if finding else "")
-            if finding is None:
-                bad = True
-        model = run_driver("C12", cls_lines() + lines)[len(cls_lines()):]
-        for d in compare_answers(rs, kinds, impl, model):
-            if d is not None:
-                print("model differs on %s:\n  impl  %s\n  model %s" % (d[0], J(d[1])[:1500], J(d[2])[:1500] if not isinstance(d[2], str) else d[2][:1500]))
+        bad = bool(replay_ruleset(c["case"])[0])
+    elif kind == "adapter":
+        ad = parse_args(c["fmt"], c)
+        print("impl: show_rules=%r missing=%r   expected %r / %r" % (ad.show_rules, ad.missing, spec_show(c), c["missing"]))
+        bad = list(ad.show_rules) != spec_show(c) or bool(ad.missing) != c["missing"]
     else:
         print("unknown replay kind")
     print("property violated on this input" if bad else "property holds on this input")
